@@ -63,6 +63,9 @@ type Contract struct {
 	Replay   string          // replay adapter name
 	Schema   string          // schema this contract came from
 	Bounded  string          // if set: this contract is only a bounded check (label), not counted as proof
+	Theorem  *SpecFun        // standalone lemma (no function): the contract's only obligation is its universal closure
+	Base     string          // function key without the "@label" suffix of an instance contract
+	Binds    []LetDef        // instance contracts: parameters fixed to the value of a spec expression (bind p = expr)
 	Options  map[string]string
 }
 
@@ -79,8 +82,10 @@ type ContractSet struct {
 	Types    map[string]*TypeSpec
 	SpecFuns map[string]*SpecFun
 	UFuns    map[string]*UFun
+	GhostVars map[string]string // ghost state variables: name -> Go integer type name (ghostvar NAME TYPE)
 	Axioms   []*Axiom
 	Files    []string
+	Instances map[string][]string // function key -> keys of its instance contracts ("key@label")
 }
 
 // UFun is an uninterpreted spec function: //@ ufun words(Int) Int
@@ -102,6 +107,7 @@ type Axiom struct {
 type SpecFun struct {
 	Name   string
 	Params []string
+	PTypes []string // optional Go integer type per parameter ("x uint64"); "" = mathematical integer
 	Src    string
 	Expr   ast.Expr
 	Lemma  bool // proved (universally closed over the integers) rather than assumed
@@ -367,6 +373,52 @@ func (cs *ContractSet) parseLines(lines []string, file, pkgPath, schemaDir strin
 			continue
 		}
 		fields := strings.Fields(l)
+		if strings.HasPrefix(l, "theorem[") {
+			// theorem[Cnn] name(x uint64, k uint64) = formula: a standalone lemma (its universal closure over the
+			// parameter types) that is an obligation of property Cnn in its own right; also usable as a macro
+			cb := strings.Index(l, "]")
+			if cb < 0 {
+				return fmt.Errorf("%s: bad theorem", where)
+			}
+			tag := l[len("theorem["):cb]
+			rest := strings.TrimSpace(l[cb+1:])
+			eq := strings.Index(rest, "=")
+			op := strings.Index(rest, "(")
+			cp := strings.Index(rest, ")")
+			if eq < 0 || op < 0 || cp < 0 || cp > eq {
+				return fmt.Errorf("%s: bad theorem", where)
+			}
+			sf := &SpecFun{Name: strings.TrimSpace(rest[:op]), Src: strings.TrimSpace(rest[eq+1:]), Lemma: true}
+			typed := false
+			for _, p := range strings.Split(rest[op+1:cp], ",") {
+				if p = strings.TrimSpace(p); p != "" {
+					pf := strings.Fields(p)
+					sf.Params = append(sf.Params, pf[0])
+					if len(pf) > 1 {
+						sf.PTypes = append(sf.PTypes, pf[1])
+						typed = true
+					} else {
+						sf.PTypes = append(sf.PTypes, "")
+					}
+				}
+			}
+			e, err := ParseSpecExpr(sf.Src)
+			if err != nil {
+				return fmt.Errorf("%s: %v", where, err)
+			}
+			sf.Expr = e
+			cs.SpecFuns[sf.Name] = sf
+			key := pkgPath + ".theorem." + sf.Name
+			tc := &Contract{Key: key, File: file, Line: i + 1, Loops: map[int]*LoopSpec{}, Props: map[string]bool{tag: true},
+				Options: map[string]string{}, Base: key, Theorem: sf}
+			if typed {
+				tc.Mode = "bv"
+			}
+			cs.Funcs[key] = tc
+			cs.Order = append(cs.Order, key)
+			cur = nil
+			continue
+		}
 		switch fields[0] {
 		case "func", "iface":
 			key := strings.TrimSpace(strings.TrimPrefix(l, fields[0]))
@@ -389,12 +441,26 @@ func (cs *ContractSet) parseLines(lines []string, file, pkgPath, schemaDir strin
 					}
 				}
 			}
+			label := ""
+			if at := strings.Index(key, "@"); at >= 0 {
+				// instance contract: "func f @label" verifies f with some parameters bound to concrete values
+				label = "@" + strings.TrimSpace(key[at+1:])
+				key = strings.TrimSpace(key[:at])
+			}
 			key = qualifyKey(key, pkgPath)
+			base := key
+			key += label
 			if _, dup := cs.Funcs[key]; dup {
 				return fmt.Errorf("%s: duplicate contract for %s", where, key)
 			}
 			cur = &Contract{Key: key, File: file, Line: i + 1, Loops: map[int]*LoopSpec{}, Props: map[string]bool{},
-				Params: params, Results: results, Iface: fields[0] == "iface", Options: map[string]string{}}
+				Params: params, Results: results, Iface: fields[0] == "iface", Options: map[string]string{}, Base: base}
+			if label != "" {
+				if cs.Instances == nil {
+					cs.Instances = map[string][]string{}
+				}
+				cs.Instances[base] = append(cs.Instances[base], key)
+			}
 			cs.Funcs[key] = cur
 			cs.Order = append(cs.Order, key)
 			continue
@@ -422,6 +488,18 @@ func (cs *ContractSet) parseLines(lines []string, file, pkgPath, schemaDir strin
 			default:
 				ts.Num = &cl
 			}
+			cur = nil
+			continue
+		case "ghostvar":
+			// ghostvar NAME TYPE: a ghost state variable (initially 0) that contracts may read with ghost("NAME")
+			// and list under modifies
+			if len(fields) != 3 || (basicTypeByName(fields[2]) == nil && fields[2] != "mathint") {
+				return fmt.Errorf("%s: ghostvar NAME INTTYPE", where)
+			}
+			if cs.GhostVars == nil {
+				cs.GhostVars = map[string]string{}
+			}
+			cs.GhostVars[fields[1]] = fields[2]
 			cur = nil
 			continue
 		case "ufun":
@@ -471,7 +549,13 @@ func (cs *ContractSet) parseLines(lines []string, file, pkgPath, schemaDir strin
 			sf := &SpecFun{Name: strings.TrimSpace(rest[:op]), Src: strings.TrimSpace(rest[eq+1:])}
 			for _, p := range strings.Split(rest[op+1:cp], ",") {
 				if p = strings.TrimSpace(p); p != "" {
-					sf.Params = append(sf.Params, p)
+					pf := strings.Fields(p)
+					sf.Params = append(sf.Params, pf[0])
+					if len(pf) > 1 {
+						sf.PTypes = append(sf.PTypes, pf[1])
+					} else {
+						sf.PTypes = append(sf.PTypes, "")
+					}
 				}
 			}
 			e, err := ParseSpecExpr(sf.Src)
@@ -534,6 +618,14 @@ func (cs *ContractSet) parseLines(lines []string, file, pkgPath, schemaDir strin
 			var c Clause
 			c, err = mkClause(tags, rest)
 			cur.Ensures = append(cur.Ensures, c)
+		case "bind":
+			eq := strings.Index(rest, "=")
+			if eq < 0 {
+				return fmt.Errorf("%s: bind needs '='", where)
+			}
+			var e ast.Expr
+			e, err = ParseSpecExpr(strings.TrimSpace(rest[eq+1:]))
+			cur.Binds = append(cur.Binds, LetDef{Name: strings.TrimSpace(rest[:eq]), Src: rest[eq+1:], Expr: e})
 		case "let", "letpost":
 			eq := strings.Index(rest, "=")
 			if eq < 0 {
